@@ -27,6 +27,13 @@ pub fn check_data(out: &Outcome) -> Vec<Finding> {
         if j.read > j.size {
             v.push(("data.excess".into(), format!("job {i} ({}): reader got {} bytes, writer wrote {}", j.kind, j.read, j.size)));
         }
+        if j.kind == "Hang" {
+            // never finished by the writer: an end-of-stream would be invented
+            if j.eof {
+                v.push(("data.eof-early".into(), format!("job {i} (Hang): end of stream reported although the writer never finished")));
+            }
+            continue;
+        }
         if j.eof && j.read != j.size {
             v.push(("data.eof-early".into(), format!("job {i} ({}): end of stream after {} of {} bytes", j.kind, j.read, j.size)));
         }
